@@ -477,6 +477,7 @@ Section Potential.
     apply tree_mutind; unfold Pi, Pc, Ps.
     - (* IEv *) intros e s o s' H. simpl in H. inversion H; subst. fin_R.
     - (* IProbe *) intros s o s' H. simpl in H. inversion H; subst. apply same_R, do_probe_same.
+    - (* IProbeThrow *) intros s o s' H. simpl in H. inversion H; subst. apply same_R, do_probe_same.
     - (* IThrow *) intros s o s' H. simpl in H. inversion H; subst. apply R_refl.
     - (* ITry *) intros b IHb hc cb IHc hf fb IHf s o s' H. simpl in H.
       repeat brk;
@@ -493,6 +494,11 @@ Section Potential.
     - (* IForOf *) intros r l [IHl _] s o s' H. simpl in H. repeat brk;
         match goal with E : exec_seq c l _ = _ |- _ => apply IHl in E end; fin_R.
     - (* IGen *) intros l [_ [_ IHl]] s o s' H. simpl in H. eapply IHl; eauto.
+    - (* IGenRet *) intros pre IHp fin IHf s o s' H. simpl in H. repeat brk;
+        repeat match goal with
+        | E : exec_c c pre _ = _ |- _ => apply IHp in E
+        | E : exec_c c fin _ = _ |- _ => apply IHf in E
+        end; fin_R.
     - (* IAsync *) intros pre IHp post _ s o s' H. simpl in H. repeat brk;
         match goal with E : exec_c c pre _ = _ |- _ => apply IHp in E end; fin_R.
     - (* IJob *) intros b _ s o s' H. simpl in H. inversion H; subst. fin_R.
